@@ -17,6 +17,11 @@ func (r *Router) parseParamRoute(route *Route) (first string) {
 
 	// no vars, but contains optional char
 	if len(ss) == 0 {
+		// "/blog/list[.html]" -> first node is "blog"
+		if optPos := strings.IndexByte(path, '['); optPos > 0 {
+			first = route.parseStartAndFirst(path[0:optPos])
+		}
+
 		regexStr := checkAndParseOptional(quotePointChar(path))
 		route.regex = regexp.MustCompile("^" + regexStr + "$")
 		return
@@ -59,18 +64,7 @@ func (r *Router) parseParamRoute(route *Route) (first string) {
 		minPos = optPos
 	}
 
-	start := path[0:minPos]
-	if len(start) > 1 {
-		route.start = start
-
-		if pos := strings.IndexByte(start[1:], '/'); pos > 0 {
-			first = start[1 : pos+1]
-			// start string only one node. "/users/"
-			if len(start)-len(first) == 2 {
-				route.start = ""
-			}
-		}
-	}
+	first = route.parseStartAndFirst(path[0:minPos])
 
 	// "." -> "\.". Notice: must after collect the start and first node string.
 	path = quotePointChar(path)
@@ -82,6 +76,22 @@ func (r *Router) parseParamRoute(route *Route) (first string) {
 	// replace {var} -> regex str
 	regexStr := strings.NewReplacer(varRegex...).Replace(path)
 	route.regex = regexp.MustCompile("^" + regexStr + "$")
+	return
+}
+
+// parse the start string and first node of a dynamic route path.
+func (r *Route) parseStartAndFirst(start string) (first string) {
+	if len(start) > 1 {
+		r.start = start
+
+		if pos := strings.IndexByte(start[1:], '/'); pos > 0 {
+			first = start[1 : pos+1]
+			// start string only one node. "/users/"
+			if len(start)-len(first) == 2 {
+				r.start = ""
+			}
+		}
+	}
 	return
 }
 
